@@ -287,9 +287,11 @@ func NewTxDataFromTx
     ensures legacy: result.1 == nil && ty != 1 && ty != 2 ==> result.0 != nil && typeof(result.0) == typetag("*github.com/haqq-network/haqq/x/evm/types.LegacyTx")
             && LegacyMirrors(unbox(result.0, "*github.com/haqq-network/haqq/x/evm/types.LegacyTx"), tx) && fresh(unbox(result.0, "*github.com/haqq-network/haqq/x/evm/types.LegacyTx"))
 
-// codec leaf: packs the tx data into a protobuf Any (no effect on tracked state)
+// packs the tx data into a new protobuf Any whose cached value is the tx data itself (proved in C18-msg; Any model:
+// /verif/specs/c18m_any/78_any.spec)
 func PackTxData
-    trusted
+    ensures ok: result.1 == nil ==> result.0 != nil && fresh(result.0) && any_cached(result.0) == txData && txData != nil
+    ensures failed: result.1 != nil ==> result.0 == nil
 
 // the hash recorded in the message is the hash of the Ethereum transaction; on failure the message is untouched
 func (*MsgEthereumTx).FromEthereumTx
